@@ -592,3 +592,52 @@ pub fn flags(args: &[String]) {
     std::fs::write(&args[0], v.to_string()).unwrap();
     println!("{v}");
 }
+
+// ------------------------------------------------------------ input selection --
+/// `zv replay input <tlc-output>`: every run of the Input.tla machine (--source flag x stdin kind x
+/// working directory x -C) as a run of the real binary, for `version` and `flow`.  The three
+/// places print different versions, so the output says whose version was read.
+pub fn replay_input(args: &[String]) {
+    crate::gitrepo::isolate_git_env();
+    let base = std::env::temp_dir().join(format!("zv-input-{}", std::process::id()));
+    let _ = std::fs::remove_dir_all(&base);
+    let git = |dir: &std::path::Path, a: &[&str]| { let _ = Command::new("git").args(a).current_dir(dir).output(); };
+    let mk = |name: &str| { let d = base.join(name); std::fs::create_dir_all(&d).unwrap(); d };
+    let tagged = mk("tagged");
+    git(&tagged, &["init", "-q", "-b", "main"]); git(&tagged, &["commit", "-q", "--allow-empty", "-m", "c1"]); git(&tagged, &["tag", "v3.1.4"]);
+    let untagged = mk("untagged");
+    git(&untagged, &["init", "-q", "-b", "main"]); git(&untagged, &["commit", "-q", "--allow-empty", "-m", "c1"]); git(&untagged, &["tag", "latest"]);
+    let norepo = mk("norepo");
+    let place = |k: &str| match k { "tagged" => tagged.clone(), "untagged" => untagged.clone(), _ => norepo.clone() };
+    let doc = "(schema:(core:[var(Major),var(Minor),var(Patch)],extra_core:[],build:[]),vars:(major:Some(7),minor:Some(7),patch:Some(7)))";
+    // nothing above the scratch directory may be taken for a repository
+    let env = vec![("GIT_CEILING_DIRECTORIES".to_string(), base.display().to_string())];
+    let cases = tlc_lines(&args[0], "REPLAY");
+    let jobs: Vec<(usize, &str)> = (0..cases.len()).flat_map(|i| [(i, "version"), (i, "flow")]).collect();
+    let results = par_map(&jobs, |(i, cmd)| {
+        let c = &cases[*i];
+        let mut a: Vec<String> = vec![cmd.to_string()];
+        if c["flag"] != "unset" { a.push("--source".into()); a.push(c["flag"].as_str().unwrap().into()); }
+        if c["dashC"] != "absent" { a.push("-C".into()); a.push(place(c["dashC"].as_str().unwrap()).display().to_string()); }
+        let stdin: Option<&[u8]> = match c["stdin"].as_str().unwrap() { "closed" => None, "blank" => Some(b"  \n\t\n"), "document" => Some(doc.as_bytes()), _ => Some(b"(not ron") };
+        let r = run_bin(&a, stdin, &env, &["RUST_LOG"], Some(&place(c["cwd"].as_str().unwrap())));
+        (a, r)
+    });
+    let mut rep = Report::new("input");
+    for ((i, _), (a, r)) in jobs.iter().zip(results) {
+        let c = &cases[*i];
+        rep.evaluations += 1;
+        if c["flag"] == "unset" || c["dashC"] != "absent" { rep.nontrivial += 1; }
+        let out = String::from_utf8_lossy(&r.stdout).to_string();
+        let want = if c["ok"].as_bool().unwrap() { match c["from"].as_str().unwrap() { "git" => "3.1.4\n", "stdin" => "7.7.7\n", _ => "0.0.0\n" } } else { "" };
+        let ok = if want.is_empty() { r.status != 0 && r.signal == 0 && out.is_empty() } else { r.status == 0 && out == want };
+        if !ok {
+            rep.mismatch("X:input-selection", json!({"argv": a, "stdin": c["stdin"], "cwd": c["cwd"], "expected": if want.is_empty() { "a refusal" } else { want.trim() },
+                                                     "from": c["from"], "status": r.status, "signal": r.signal, "stdout": out, "stderr": String::from_utf8_lossy(&r.stderr).chars().take(200).collect::<String>()}));
+        } else if rep.samples.len() < 4 && c["flag"] == "unset" {
+            rep.sample(json!({"argv": a, "stdin": c["stdin"], "cwd": c["cwd"], "stdout": out.trim()}));
+        }
+    }
+    let _ = std::fs::remove_dir_all(&base);
+    rep.print();
+}
